@@ -206,6 +206,9 @@ def gen_label(rng):
         return b"z" * 300
     if c < 0.5:
         return "Çue ✓".encode()
+    if c < 0.62:
+        # arbitrary bytes: embedded NUL (a C-string copy stops there), 0xff, control characters
+        return bytes(rng.choice(b"ab\x00\x00\xff\x01\n;/.Z") for _ in range(rng.randrange(2, 24)))
     return bytes(rng.choice(b"abcdefghij KLMNOP123") for _ in range(rng.randrange(1, 40)))
 
 
